@@ -5,7 +5,7 @@
    `unify` an assignment to an unsolved cell. *)
 From Coq Require Import List ZArith Lia Bool Arith.
 Import ListNotations.
-Require Import Gram.Model.Term Gram.Model.DeBruijn Gram.Model.ModelB Gram.Proofs.ModelBProofs.
+Require Import Gram.Model.Term Gram.Model.DeBruijn Gram.Model.ModelB Gram.Proofs.ModelBProofs Gram.Proofs.ModelBEq.
 
 Definition grow (s s' : storeB) : Prop := exists k, s' = s ++ repeat None k.
 Definition ext (s s' : storeB) : Prop := length s <= length s' /\ forall id t, sget s id = Some t -> sget s' id = Some t.
@@ -168,7 +168,8 @@ Ltac ih_facts IH :=
 Theorem unifyB_ext : forall f s D a b ok s', unifyB f s D a b = Some (ok, s') -> ext s s'.
 Proof.
   induction f as [|f IH]; intros s D a b ok s' H; [discriminate|].
-  cbn [unifyB] in H. cbv zeta in H.
+  (* unfold one layer through the equations of ModelBEq.v: unfolding unifyB itself costs the kernel minutes *)
+  rewrite unifyB_S in H. unfold unify_body in H.
   destruct (syn_eqB f s a b) as [[|]|]; [injection H as _ <-; apply ext_refl | | discriminate].
   destruct (whnfB f s D a) as [[w1 s1]|] eqn:W1; [|discriminate].
   destruct (whnfB f s1 D b) as [[w2 s2]|] eqn:W2; [|discriminate].
@@ -179,7 +180,8 @@ Proof.
   assert (U2 : forall id sh, w2 = THole id sh -> sget s2 id = None).
   { intros id sh ->. eapply whnfB_hole_unsolved; eauto. }
   clear W1 W2 G1 G2.
-  destruct w1, w2; break_match H; try discriminate H; try (injection H as _ <-); ih_facts IH;
+  destruct w1, w2; cbv beta iota zeta delta [unify_head] in H;
+    break_match H; try discriminate H; try (injection H as _ <-); ih_facts IH;
     try (apply ext_refl);
     try (apply sset_ext; first [eapply U1; reflexivity | eapply U2; reflexivity]);
     eauto 6 using ext_refl, ext_trans.
